@@ -10,6 +10,7 @@ namespace Nstd.Life
 /-- the operations of PoolList / PoolMap -/
 def Op.isPoolOp : Op → Bool
   | .pAppend .. | .pRemove .. | .pRemoveRef .. | .qAppend .. | .qRemove .. | .qRemoveAt .. | .qRemoveRef .. => true
+  | .pRemoveChain .. | .qInsert .. | .qRemoveChain .. => true
   | .new c | .clear c => c.k.isPool
   | .newcap c _ => c.k.isPool
   | .swap c _ => c.k.isPool
@@ -33,6 +34,7 @@ def Op.nodeTargets : Op → List Var
   | .sRemoveRef v _ => [⟨.S, v⟩] | .sRemoveSet v _ => [⟨.S, v⟩] | .sRemoveAt v _ => [⟨.S, v⟩]
   | .pAppend v _ => [⟨.P, v⟩] | .pRemove v _ => [⟨.P, v⟩] | .pRemoveRef v _ => [⟨.P, v⟩]
   | .qAppend v _ _ => [⟨.Q, v⟩] | .qRemove v _ => [⟨.Q, v⟩] | .qRemoveAt v _ => [⟨.Q, v⟩] | .qRemoveRef v _ => [⟨.Q, v⟩]
+  | .pRemoveChain v _ _ => [⟨.P, v⟩] | .qInsert v _ _ _ => [⟨.Q, v⟩] | .qRemoveChain v _ _ => [⟨.Q, v⟩]
   | _ => []
 
 def Op.arrTargets : Op → List Nat
